@@ -66,6 +66,19 @@ func paramList(fn *ssa.Function) string {
 	for _, p := range fn.FreeVars {
 		xs = append(xs, p.Name())
 	}
+	// a closure's terms may mention the enclosing functions' parameters (captured values)
+	seen := map[string]bool{}
+	for _, x := range xs {
+		seen[x] = true
+	}
+	for par := fn.Parent(); par != nil; par = par.Parent() {
+		for _, p := range par.Params {
+			if !seen[p.Name()] {
+				seen[p.Name()] = true
+				xs = append(xs, p.Name())
+			}
+		}
+	}
 	return strings.Join(xs, ",")
 }
 
